@@ -446,7 +446,9 @@ from harness.checks_incremental import IncrementalCheck  # noqa: E402
 CHECKS["C18"] = IncrementalCheck()
 CHECKS["C04"].mc_models = ("MC_Codec", "MC_Layout")
 CHECKS["C03"].mc_models = ("MC_Codec", "MC_Plan")
-CHECKS["C06"].mc_models = ("MC_Codec", "MC_Bits", "MC_Layout")
+CHECKS["C06"].mc_models = ("MC_Codec", "MC_Bits", "MC_Layout", "MC_Writer")
+CHECKS["C02"].mc_models = ("MC_Codec", "MC_Writer")
+CHECKS["C01"].mc_models = ("MC_Codec", "MC_Writer")
 
 
 from harness.checks_threads import ThreadsCheck  # noqa: E402
